@@ -40,8 +40,11 @@ B_NAMES = {"bsram": "SRAM(bursting=True)", "bsram_ro": "SRAM(bursting=True, read
 
 
 def _bdescribe(s):
-    return "wishbone.%s[burst master](%s)" % (B_NAMES.get(s["kind"], s["kind"]), ", ".join(
-        "%s=%s" % (k, v) for k, v in sorted(s.items()) if k not in ("kind", "backing_bytes", "alone", "cost")))
+    name = B_NAMES.get(s["kind"], s["kind"])
+    if not s.get("slave_bursting", 1):
+        name = name.replace("bursting=True", "bursting=False")
+    return "wishbone.%s[burst master](%s)" % (name, ", ".join(
+        "%s=%s" % (k, v) for k, v in sorted(s.items()) if k not in ("kind", "backing_bytes", "alone", "cost", "live", "nofollowup")))
 
 
 B_FAMILY = GFamily("wbmem/FlatMemBurstGraph", "wbmem/FlatMemBurstTrace", "harness.families.wbburst:make",
@@ -149,15 +152,17 @@ def _notes_findings(prop):
         return [f for f in json.load(fh) if f.get("id") not in have and f.get("property") == prop]
 
 
-def burst_batches(cfgs):
-    """DUTs expected to hit a listed finding and big ones alone, the rest in batches of cost <= 4"""
+def burst_batches(cfgs, live):
+    """DUTs expected to hit a listed finding and big ones alone, the rest in batches of cost <= 6"""
     out, cur, cost = [], [], 0
     for c in cfgs:
+        if bool(c[0].get("live", True)) != live:
+            continue
         if c[0].get("alone"):
             out.append([c])
             continue
         w = c[0].get("cost", 1)
-        if cur and cost + w > 4:
+        if cur and cost + w > 6:
             out.append(cur)
             cur, cost = [], 0
         cur.append(c)
@@ -177,8 +182,12 @@ def run_burst(rec, tier, log=print):
     old = gcheck.GraphLoop
     gcheck.GraphLoop = _burst_loop_class(seen)
     try:
-        stats = run_batches(B_FAMILY, rec, burst_batches(cfgs), B_INVS, PROPS, spec_budget=400000,
-                            total_budget=1500000, followup=True, log=log, tlc_timeout=3000)
+        stats = []
+        for live in (True, False):
+            bl = burst_batches(cfgs, live)
+            if bl:
+                stats += run_batches(B_FAMILY, rec, bl, B_INVS, PROPS if live else [], spec_budget=1500000,
+                                     total_budget=3000000, followup=True, log=log, tlc_timeout=3000)
     finally:
         gcheck.GraphLoop = old
     explored = {s["dut"] for s in stats}
@@ -244,6 +253,7 @@ def run(prop, report, tier, seed):
         q = ctx.Queue()
         child = ctx.Process(target=_burst_child, args=(prop, tier, seed, q))
         child.start()
+    pending = None
     try:
         if part in ("all", "classic"):
             cfgs = fam.configs(tier)
@@ -255,10 +265,8 @@ def run(prop, report, tier, seed):
             stats = run_batches(FAMILY, report, batches, INVS, PROPS, spec_budget=600000, total_budget=2000000,
                                 followup=True)
             report.add(duts_explored=len(stats), clauses=INVS + PROPS, per_dut=stats)
-    except BaseException:
-        if child is not None and child.is_alive():
-            child.terminate()
-        raise
+    except Exception as ex:       # the burst part is still collected (its confirmed violations stand), then re-raised
+        pending = ex
     if child is not None:
         res = None
         while res is None:
@@ -269,7 +277,15 @@ def run(prop, report, tier, seed):
                     try:
                         res = q.get(timeout=1)
                     except Exception:
+                        if pending is not None:
+                            raise pending
                         raise MachineryError("burst part: child process died with exit code %s" % child.exitcode)
         child.join()
-        _merge_burst(report, res)
+        try:
+            _merge_burst(report, res)
+        except MachineryError:
+            if pending is None:
+                raise
+    if pending is not None:
+        raise pending
     report.cov["exhaustive"] = True
